@@ -202,6 +202,15 @@ def cases(tier, seed, focus=None):
             else:
                 out.append({"clause": "colperm", "agg": agg, "matrix": spec, "perm": rng.sample(range(spec["n"]), spec["n"]),
                             "rseed": rng.randrange(10**6)})
+    # ConFIG only uses the DIRECTION of its preference vector: a tiny one (1e-8 scale) on a wide matrix makes every entry of the
+    # intermediate direction tiny although its norm is not zero; a reflection concentrates it on one coordinate
+    for j in range(24 if thorough else 6):
+        m0 = rng.choice([2, 3])
+        agg = {"name": "ConFIG", "pref": [rng.choice([2e-8, 4e-8]) * (1.0 + 0.5 * i) for i in range(m0)]}
+        spec = {"kind": "wellcond", "m": m0, "n": rng.choice([128, 256]), "seed": rng.randrange(10**9), "cond": rng.choice([1.0, 3.0]),
+                "scale": rng.choice([1e-2, 1.0, 1e2]), "dtype": "float64"}
+        out.append({"clause": "orthogonal", "agg": agg, "matrix": spec, "q": "house_row", "qrow": rng.randrange(m0),
+                    "qseed": rng.randrange(10**6), "rseed": rng.randrange(10**6)})
     for agg in [a for a in LAYOUT_AGGS if a["name"] == "IMTLG"]:
         # float32, 2e5 zero columns, condition number 50..100 (rank unambiguous): a cut-off of a pseudo-inverse that grows with
         # the NUMBER OF COLUMNS (pinv of J instead of J J^T) drops genuine singular values only here
